@@ -272,8 +272,7 @@ TImpactSet ==
 (* the locked part of the statistics handler: a read *)
 TQueryStats ==
   /\ Ev.a = "QueryStats"
-  /\ IF IsStrict THEN UNCHANGED vars /\ MatchPost(Ev.post)
-     ELSE Apply(UNCHANGED vars)
+  /\ Apply(UNCHANGED vars)
   /\ PostSane(Ev.post)
   /\ pend' = [kind |-> "stats", tso |-> Ev.tso, ans |-> StatsAnswer(Ev.tso)]
   /\ UNCHANGED <<rot, atag>>
@@ -286,7 +285,9 @@ TStatsResp ==
                    ELSE StatsAnswer(Ev.tso)
         IN  IF exp = Refused THEN Ev.status # 200
             ELSE /\ Ev.status = 200
-                 /\ Ev.neg \/ UnWeek(Ev.resp) = exp)
+                 /\ Ev.neg \/ UnWeek(Ev.resp) = exp
+                 \* an archived week is served with the very same signature forever
+                 /\ (~Ev.neg /\ Ev.tso < offset) => Ev.resp.tag = atag[Ev.tso \div WeekLen + 1])
   /\ pend' = NoPend
   /\ UNCHANGED <<vars, rot, atag>>
 
